@@ -919,6 +919,32 @@ def r14_o(run, fx):
             run.ok("R14-O", "%s: no unchecked multiplication" % nm)
 
 
+def r14_n(run, fx):
+    rule = "R14-N"
+    run.rule(rule, "read_until_nibble stops at the first byte that holds the nibble in EITHER half: its predicate compares both (b >> 4) and "
+                   "(b & 0xF) with the argument (CFF real numbers end with a 0xF nibble in the high or in the low position)")
+    cl = [b for b in fx.bodies if b.kind == "Closure" and b.path.startswith("binary::read::ReadCtxt::<'a>::read_until_nibble::")]
+    if not cl:
+        return run.anchor_missing(rule, "closure of ReadCtxt::read_until_nibble")
+    for b in cl:
+        prov = sym.Prov(b)
+        hi = lo = False
+        for blk in b.blocks:
+            for st in blk["s"]:
+                if st["k"] == "assign" and st["rv"]["k"] == "bin" and st["rv"]["bop"] == "Eq":
+                    for side in ("a", "b"):
+                        t = sym.strip(prov.op(st["rv"][side]))
+                        if t[0] == "bin" and t[1] == "Shr" and sym.strip(t[3])[0] == "c" and sym.strip(t[3])[1] == 4:
+                            hi = True
+                        if t[0] == "bin" and t[1] == "BitAnd" and any(sym.strip(x)[0] == "c" and sym.strip(x)[1] == 15 for x in (t[2], t[3])):
+                            lo = True
+        if hi and lo:
+            run.ok(rule, "predicate tests (b >> 4) == n and (b & 0xF) == n")
+        else:
+            run.fail(rule, "nibble-predicate", "read_until_nibble tests only the %s nibble of each byte: a terminator in the other half is run over "
+                     "(the read overruns into following data or reports a spurious end of data)" % ("high" if hi else "low" if lo else "?"), "%s:%s" % (b.file, b.line))
+
+
 def check(run, fx, tier, floors=True):
     r14_u(run, fx, floors)
     kernels = r14_p(run, fx)
@@ -929,4 +955,6 @@ def check(run, fx, tier, floors=True):
     r14_g(run, fx)
     r14_a(run, fx, floors)
     r14_o(run, fx)
+    if floors or any(b.path.startswith("binary::read::ReadCtxt::<'a>::read_until_nibble") for b in fx.bodies):
+        r14_n(run, fx)
     run.analysed["kernels"] = kernels
